@@ -34,6 +34,6 @@ func TestCheck(t *testing.T) {
 		Assumptions: []string{"single client goroutine: the race between GC's check-then-reinsert and a concurrent client overwrite (DESIGN R16) is not reachable here and is covered by C34's concurrent histories",
 			"a rewrite is requested only for sealed files (fid below the active one), as runGC does"},
 	}
-	pbt.Add(s, &pbt.Spec[plain.Case]{Name: "history", Gen: gen, Run: plain.Run, Quick: 480, Thorough: 20000, Shards: 16})
+	pbt.Add(s, &pbt.Spec[plain.Case]{Name: "history", Gen: gen, Run: plain.Run, Quick: 320, Thorough: 20000, Shards: 16})
 	s.Main(t)
 }
